@@ -14,11 +14,23 @@ fn strategy(tier: Tier) -> BoxedStrategy<LedgerCase> {
     p.max_rows = tier.pick(16, 36);
     p.year_edge = true;
     p.usd_norate = false;
-    (ledger_strategy(p, 2), intent_strategy(), any::<u8>()).prop_map(|(base, it, m)| {
+    let usual = (ledger_strategy(p, 2), intent_strategy(), any::<u8>()).prop_map(|(base, it, m)| {
         // a third of the cases carry one rejected security
         if m % 3 == 0 { if let Some(rc) = super::c04::plant(&base, &it) { return rc.ledger; } }
         base
-    }).boxed()
+    });
+    // one security realising gains and losses in 8-15 different years (a long column of yearly figures under its table), next to a second one
+    let many_years = (8usize..=15, proptest::collection::vec((1i64..40, 0i64..400, any::<bool>()), 15), any::<bool>()).prop_map(|(n, sells, spouse)| {
+        use crate::gen::{ymd, HRow};
+        use crate::model::Act;
+        let af = if spouse { "Spouse" } else { "" };
+        let mk = |sec: &str, y: i32, m: u8, d: u8, act: Act, sh: i64, cents: i64| { let dt = ymd(y, m, d); let mut r = HRow::new(sec, dt, dt, act); r.shares = sh.to_string(); r.price = format!("{}.{:02}", cents / 100, cents % 100); r.af = af.to_string(); r };
+        let mut rows = vec![mk("FOO", 2001, 2, 5, Act::Buy, 1000, 1000), mk("BAR", 2001, 2, 6, Act::Buy, 10, 333)];
+        for (k, (sh, px, late)) in sells.iter().take(n).enumerate() { rows.push(mk("FOO", 2002 + k as i32, if *late { 12 } else { 3 }, 5 + k as u8, Act::Sell, *sh, 800 + *px)); }
+        rows.push(mk("BAR", 2010, 6, 1, Act::Sell, 3, 350));
+        LedgerCase { rows, opening: vec![], tags: vec!["gains-in-8-or-more-years".into()] }
+    });
+    prop_oneof![9 => usual, 1 => many_years].boxed()
 }
 
 /// All money figures of a cell, in order: "$x", "-$x", "+$x", "(x CUR)".
@@ -104,6 +116,7 @@ fn check(case: &LedgerCase, obs: &mut Obs) -> Verdict {
     let mut asum = Rat::zero();
     for (y, w) in &agg_want { if !w.close(&agot[y], &tol) { return Verdict::Fail(format!("aggregate {y}: shows {} but the error-free securities add up to {}\n{csv}", agot[y], w)); } asum = asum.add(&agot[y]); }
     if !since.close(&asum, &tol) { return Verdict::Fail(format!("'Since inception' {} but the years add up to {}\n{csv}", since, asum)); }
+    if years_with_gains.len() >= 8 { obs.class("gains-in-8-or-more-years"); }
     if secs_with_gains >= 2 && years_with_gains.len() >= 2 { obs.nt(">=2-securities-and->=2-years-with-gains"); }
     // (2) default output = full output rounded half away from zero to cents, token by token
     let mut pairs: Vec<(String, &TableSnap, &TableSnap)> = vec![];
@@ -128,6 +141,12 @@ fn check(case: &LedgerCase, obs: &mut Obs) -> Verdict {
     // (3) the text and CSV front ends show the render model's cells
     let t = match run_text(&files, &opts, true, true) { Ok(t) => t, Err(RunErr::Panic(p)) => return classify_panic(&p, csv), Err(_) => return Verdict::Fail("text run failed".into()) };
     for (name, tf, _) in &pairs { for c in all_cells(tf) { for line in c.lines() { let l = line.trim(); if !l.is_empty() && !t.out.contains(l) { return Verdict::Fail(format!("{name}: text output lacks the render model's cell line {l:?}\n{csv}")); } } } }
+    // ... as often as the tables have it (a yearly figure under a table usually recurs in the aggregate table, so presence alone says little)
+    {
+        let mut want: BTreeMap<&str, usize> = BTreeMap::new();
+        for (_, tf, _) in &pairs { for c in all_cells(tf) { for line in c.lines() { let l = line.trim(); if !l.is_empty() { *want.entry(l).or_insert(0) += 1; } } } }
+        for (l, n) in want { let got = t.out.matches(l).count(); if got < n { return Verdict::Fail(format!("text output shows the cell line {l:?} {got} times, the tables have it {n} times\n{csv}")); } }
+    }
     let w = match run_csv_writer(&files, &opts, true, true) { Ok(t) => t, Err(RunErr::Panic(p)) => return classify_panic(&p, csv), Err(_) => return Verdict::Fail("csv run failed".into()) };
     let mut recs: std::collections::BTreeSet<Vec<String>> = Default::default();
     let mut rdr = csv::ReaderBuilder::new().has_headers(false).flexible(true).from_reader(w.out.as_bytes());
@@ -169,7 +188,7 @@ fn check(case: &LedgerCase, obs: &mut Obs) -> Verdict {
 }
 
 pub fn def() -> PropDef {
-    let mut d = PropDef::new("C06", "generated multi-security, multi-year, multi-affiliate inputs (a third with one rejected security) rendered with and without --print-full-values and with --total-costs: (1) per error-free security the yearly figures = exact sum of its rows' full-precision gain cells by SETTLEMENT year, total = sum of years, years shown = years with a gain-bearing row; aggregate year = sum over error-free securities, 'Since inception' = sum of years (1e-9); (2) every money figure ($x, -$x, +$x, (x CUR)) of the default rendering equals the corresponding full-precision figure rounded half away from zero to cents, figure by figure, in every table incl. costs; (3) text and CSV front ends show the render model's cells; (4) for a quarter of the cases the real --csv-output-dir front end: each file holds exactly its table (header, rows, footer, notes, errors) and a default-precision run written over the files of a full-precision run leaves the same files as a run into an empty directory. Non-trivial = >= 2 securities and >= 2 years with gains, or a row whose trade and settlement years differ, or a figure at a .xx5 midpoint. Distinct = distinct case content.");
+    let mut d = PropDef::new("C06", "generated multi-security, multi-year, multi-affiliate inputs (a third with one rejected security; a tenth with one security realising gains in 8-15 different years) rendered with and without --print-full-values and with --total-costs: (1) per error-free security the yearly figures = exact sum of its rows' full-precision gain cells by SETTLEMENT year, total = sum of years, years shown = years with a gain-bearing row; aggregate year = sum over error-free securities, 'Since inception' = sum of years (1e-9); (2) every money figure ($x, -$x, +$x, (x CUR)) of the default rendering equals the corresponding full-precision figure rounded half away from zero to cents, figure by figure, in every table incl. costs; (3) text and CSV front ends show the render model's cells; (4) for a quarter of the cases the real --csv-output-dir front end: each file holds exactly its table (header, rows, footer, notes, errors) and a default-precision run written over the files of a full-precision run leaves the same files as a run into an empty directory. Non-trivial = >= 2 securities and >= 2 years with gains, or a row whose trade and settlement years differ, or a figure at a .xx5 midpoint. Distinct = distinct case content.");
     d.assumptions = vec!["full-precision cells are the figures --print-full-values prints; sums recomputed exactly from them"];
     d.subs.push(Box::new(Sub::<LedgerCase> { name: "totals", cases_quick: 24_000, cases_thorough: 400_000, strategy: Box::new(strategy), to_json: LedgerCase::to_json, from_json: LedgerCase::from_json, check }));
     d
